@@ -138,22 +138,47 @@ def payloads(R, ctx):
         okc = all(len(c) >= 1 and not c.endswith(b'\n') for c in ctrl) and ctrl[0] != ctrl[1] and all(e.endswith(b'\n') for e in ends)
     R.check('R15.1', 'control-constants-vs-line-endings', okc, "FLUSH/SHUTDOWN constants do not end in LF, both line endings do",
             "a control constant ends in LF (or a line ending does not): a record message could equal a control message", where='src/util.rs')
-    # classify each send site
+    # classify each send site.  A crate-private function that only forwards one of its parameters as the payload is a
+    # wrapper (send-like): its call sites are the send sites (whether or not such a wrapper exists is a matter of style)
+    SEND = r'crossbeam_channel::Sender::<T>::(send|try_send)$'
+    sendlike = {}
+
+    def payload_index(name, t):
+        if re.search(SEND, name):
+            if 'Vec<u8>' not in ' '.join(t['callee'].get('targs', [])) + (t['callee'].get('impl_self') or ''):
+                return None
+            return 1
+        return sendlike.get(name)
+    changed = True
+    while changed:
+        changed = False
+        for b in f.fn_bodies():
+            if b.path in sendlike or b.reachable or b.kind == 'Closure':
+                continue
+            for bb, t in b.calls():
+                pi = payload_index(callee_name(t), t)
+                if pi is None or pi >= len(t['args']):
+                    continue
+                roots = ctx.ip.prov(b.path).op_roots(t['args'][pi])
+                params = {r_[1] for r_ in roots if r_[0] == 'param'}
+                touched = any(re.search(r'Extend<.*>>::extend$|extend_from_slice$|::push$', callee_name(t2)) or re.search(c01.FMT, callee_name(t2)) for _, t2 in b.calls())
+                if roots and all(r_[0] == 'param' for r_ in roots) and len(params) == 1 and not touched:
+                    sendlike[b.path] = next(iter(params)) - 1
+                    changed = True
     n = 0
     for b in f.fn_bodies():
         for bb, t in b.calls():
             name = callee_name(t)
-            if not re.search(r'crossbeam_channel::Sender::<T>::(send|try_send)$|std_writer::AsyncHandle::send$', name):
+            pi = payload_index(name, t)
+            if pi is None or pi >= len(t['args']):
                 continue
-            if 'Vec<u8>' not in ' '.join(t['callee'].get('targs', [])) + (t['callee'].get('impl_self') or '') + b.local_ty(arg_local(t, 1) or 0) and not name.endswith('AsyncHandle::send'):
-                continue
-            if b.path.endswith('std_writer::AsyncHandle::send'):
+            if b.path in sendlike:
                 R.ok('R15.1', f"{b.path}|wrapper", 'wrapper: forwards its parameter (classified at its callers)', nontrivial=False)
                 continue
             n += 1
             p = ctx.ip.prov(b.path)
-            roots = p.op_roots(t['args'][1])
-            buf_local = arg_local(t, 1)
+            roots = p.op_roots(t['args'][pi])
+            buf_local = arg_local(t, pi)
             # what was done to this buffer in this body
             ext_ctrl = any(re.search(r'Extend<.*>>::extend$|extend_from_slice$', callee_name(t2)) and arg_local(t2, 0) is not None and
                            (p.roots(arg_local(t2, 0)) & roots) and re.search(r'ASYNC_(FLUSH|SHUTDOWN)', op_str(t2['args'][1])) for bb2, t2 in b.calls())
